@@ -230,8 +230,8 @@ fn texts() -> Vec<Vec<u8>> {
     let mut texts = vec![];
     for bs in ["3", "6144", "3221225472", "0", "03", "4", "4294967296", "", "6 "] {
         for l1 in [0usize, 1, 5, 60, 63, 64, 65, 70] {
-            for r1 in [0usize, 3, 4, 5, 9, 60, 70] {
-                for (l2, r2) in [(0usize, 0usize), (3, 0), (31, 4), (32, 0), (33, 0), (28, 5), (28, 9), (64, 0), (60, 8), (0, 40), (29, 0), (30, 0), (61, 0), (62, 0), (26, 4)] {
+            for r1 in [0usize, 3, 4, 5, 9, 32, 60, 64, 70] {
+                for (l2, r2) in [(0usize, 0usize), (3, 0), (31, 4), (32, 0), (33, 0), (28, 5), (28, 9), (64, 0), (60, 8), (0, 40), (29, 0), (30, 0), (61, 0), (62, 0), (26, 4), (0, 32), (0, 64), (0, 28)] {
                     for tail in ["", ",x", ":", "@"] {
                         if !(bs == "3" || bs == "3221225472") && !(tail.is_empty() && r1 <= 4) {
                             continue;
@@ -255,6 +255,18 @@ fn texts() -> Vec<Vec<u8>> {
     }
     for s in ["3", "", ":", "3:", "3:A", "3:A:", "3::", "3:::", "3::,", "3:A,B:C", "3:\u{e9}:"] {
         texts.push(s.as_bytes().to_vec());
+    }
+    // block hashes exactly at capacity that consist of runs of four (eight) only: every run-length entry is used
+    for (n1, n2, len) in [(16usize, 8usize, 4usize), (16, 16, 4), (8, 4, 8), (8, 8, 8), (15, 8, 4), (16, 7, 4)] {
+        let runs = |n: usize| -> Vec<u8> { (0..n).flat_map(|r| vec![b'A' + r as u8; len]).collect() };
+        for tail in ["", ",x"] {
+            let mut t = b"6:".to_vec();
+            t.extend(runs(n1));
+            t.push(b':');
+            t.extend(runs(n2));
+            t.extend(tail.as_bytes());
+            texts.push(t);
+        }
     }
     texts.sort();
     texts.dedup();
